@@ -38,8 +38,13 @@ def run_store(ctx, pid, deletes):
     runs.append(("bfs", dict(spec="GSpecBFS", T=2, depth=bfs_depth, maxlen=2, maxid=3, writers=1, inv="Emit",
                              chansets='{{"I"}, {"I","D","V"}, {"D"}}', deletes=deletes), None, 1, False))
     # 3. long random behaviours (simulation), several concretisations each
-    n_sim = (30 if not thorough else 300)
+    n_sim = (14 if not thorough else 150)
     runs.append(("sim", dict(spec="GSpecSim", T=4, depth=16, deletes=deletes), "num=%d" % n_sim, 2 if not thorough else 3, False))
+    # scenario plans (kinds of steps prescribed, arguments random): rewrite-after-delete, two sessions,
+    # data-only writers, explicit commits
+    for plan in (1, 2, 3, 4):
+        runs.append(("plan%d" % plan, dict(spec="GSpecSim", T=4, depth=16, deletes=deletes, plan=plan),
+                     "num=%d" % (5 if not thorough else 60), 2 if not thorough else 3, False))
     if not deletes:
         runs.append(("early", dict(spec="GSpecSim", T=4, depth=12, deletes=False, early=True), "num=%d" % max(10, n_sim // 3), 2, True))
     for tag, kw, sim, nconc, early in runs:
